@@ -76,13 +76,20 @@ class Ctx:
         self.cov = {}
         self.assumptions = []
         self.proof_info = {"obligations": 0, "discharged": 0, "axioms": [], "checker_cmd": "", "files": []}
-        self.dir = os.path.join(BUILD, "cases", pid)
-        os.makedirs(self.dir, exist_ok=True)
-        for f in os.listdir(self.dir):
+        # one private directory per run (two runs of the same check must not delete each other's case files);
+        # run directories older than two hours are swept here, the run's own one is removed by finish() on success
+        base = os.path.join(BUILD, "cases", pid)
+        os.makedirs(base, exist_ok=True)
+        import shutil
+        for f in os.listdir(base):
+            fp = os.path.join(base, f)
             try:
-                os.unlink(os.path.join(self.dir, f))
+                if time.time() - os.path.getmtime(fp) > 7200:
+                    shutil.rmtree(fp) if os.path.isdir(fp) else os.unlink(fp)
             except OSError:
                 pass
+        self.dir = os.path.join(base, "run_%d" % os.getpid())
+        os.makedirs(self.dir, exist_ok=True)
         self._case_files = 0
         self.quick = tier == "quick"
 
@@ -274,6 +281,8 @@ class Ctx:
         with open(os.path.join(VERIF, "evidence", self.pid + ".json"), "w") as f:
             json.dump(ev, f, indent=1, default=str)
         if not violations:
+            import shutil
+            shutil.rmtree(self.dir, ignore_errors=True)
             print("OK property=%s tier=%s evaluations=%s obligations=%s/%s wall=%.1fs" % (
                 self.pid, self.tier, cov.get("evaluations"), cov.get("discharged"), cov.get("obligations"), ev["wall_s"]))
             sys.exit(0)
